@@ -30,7 +30,10 @@ rep('asyncoro.py', "def _reconcile(decl, task):\n    runtime._pc_level -= 1\n   
 rep('seclists.py', "            i = key[:]\n        i.pop()\n        if len(i) != n-1:", "            i = list(key)\n        i.pop()\n        if n-1 != len(i):")
 # statistics / thresha / gmpy small equivalences
 rep('gmpy.py', "                if b == x-1:\n                    break", "                if b == x - 1:\n                    break")
-rep('thresha.py', "def recombine(field, points, shares, x_rs=0):", "def recombine(field, points, shares, x_rs=0):  # harmless comment")
+# NumPy paths and secure floats / polynomials (C05, C37, C38)
+rep('runtime.py', "        a_shape = getattr(a, 'shape', ())\n        b_shape = getattr(b, 'shape', ())\n        shape = np.broadcast_shapes(a_shape, b_shape)\n        if not stype.frac_length:\n            await self.returnType((stype, shape))\n        else:\n            await self.returnType((stype, a.integral and b.integral, shape))\n        a, b = await self.gather(a, b)\n        return a + b", "        shp_a = getattr(a, 'shape', ())\n        shp_b = getattr(b, 'shape', ())\n        shape = np.broadcast_shapes(shp_b, shp_a)\n        if stype.frac_length:\n            await self.returnType((stype, b.integral and a.integral, shape))\n        else:\n            await self.returnType((stype, shape))\n        a, b = await self.gather(a, b)\n        return a + b")
+rep('secpols.py', "        d = secpoly._degree(a)  # set degree obliviously\n        n = len(a)", "        n = len(a)\n        d = secpoly._degree(a)  # set degree obliviously")
+rep('sectypes.py', "                    s, e = math.frexp(value)\n                    if abs(s) == 0.5:\n                        e -= 1", "                    mant, e = math.frexp(value)\n                    if abs(mant) == 0.5:\n                        e = e - 1")
 PY
 echo "changed lines: $(diff -r /repo/mpyc $D/mpyc | grep -c '^[<>]')"
 (cd $D && PYTHONPATH=$D timeout 900 /venv/bin/python -m pytest -q -p no:cacheprovider /repo/tests 2>&1 | tail -1)
